@@ -332,16 +332,16 @@ def run(ctx) -> list[Inst]:
             foreign = [p for p in bad if p.root[0] == 'param']
             if not bad and paths:
                 insts.append(Inst(RULE, fname, construct, 'ok', msg=', '.join(repr(p) for p in paths), file=rel,
-                                  line=n.lineno, props=('C11', 'C09', 'C16')))
+                                  line=n.lineno, props=('C11', 'C09', 'C16', 'C14')))
             elif foreign:
                 insts.append(Inst(
                     RULE, fname, construct, 'violation',
                     msg=(f"'{stmt_text(what)}' may be {foreign[0]!r}, which is not one of this graph's node "
                          f"containers: after a second graph was generated from the same model (or a node was "
                          f"removed) the attacker reaches nodes that are not in this graph"),
-                    file=rel, line=n.lineno, props=('C11', 'C09', 'C16')))
+                    file=rel, line=n.lineno, props=('C11', 'C09', 'C16', 'C14')))
             else:
                 insts.append(Inst(RULE, fname, construct, 'unproven',
                                   msg='origin: ' + ', '.join(repr(p) for p in paths), file=rel, line=n.lineno,
-                                  props=('C11', 'C09', 'C16')))
+                                  props=('C11', 'C09', 'C16', 'C14')))
     return insts
